@@ -20,9 +20,12 @@ Open Scope list_scope.
 
 Definition er (ok : bool) : gval := VErr (negb ok).
 Definition is_receiver (e : gval) : bool := match e with VEff x _ => x =? "receiver" | _ => false end.
+(* the translated functions that run inside this lemma file; every other call is a scripted collaborator *)
+Definition signer_funs : list (string * gfun) :=
+  filter (fun p => (fst p =? "FileSystemSigner.Sign") || (fst p =? "FileSystemSigner.GetPublic") || (fst p =? "LoadFileSystemSigner") || (fst p =? "pendingBase.init")) gen_funs.
 Definition run_all (globals : env) (name : string) (recv : option gval) (args : list gval) : option (list gval * list gval) :=
-  match lookup gen_funs name with
-  | Some fn => interp (bind (exec 400 gen_funs globals (start_env fn recv args) [] (f_body fn)) (fun r => RRet (fst r, rev (snd r))))
+  match lookup signer_funs name with
+  | Some fn => interp (bind (exec 400 signer_funs globals (start_env fn recv args) [] (f_body fn)) (fun r => RRet (fst r, rev (snd r))))
   | None => None
   end.
 
